@@ -15,7 +15,7 @@ open Spec
 def ofDay (d : Day) : SDay :=
   { date := d.date
     B := d.B
-    Bcost := match d.buy with | some b => b.q * b.p + b.f | none => 0
+    Bcost := match d.buy with | some b => b.q * b.p + b.f + d.offset | none => 0
     S := d.S
     Sgross := rsum (d.sells.map (fun s => s.q * s.p))
     Sfees := rsum (d.sells.map (·.f))
@@ -288,20 +288,20 @@ theorem walk_cons (tbl : List SDay) (cs : List Claim) (i : Nat) (pq pc : Rat) (d
        let r := walk tbl cs (i + 1) o.2.1 o.2.2 rest
        (o.1 ++ r.1, r.2.1, r.2.2)) := rfl
 
-theorem unitCost_ofDay (d : Day) (h0 : d.offset = 0) : Spec.unitCost (ofDay d) = dayUnit d := by
+theorem unitCost_ofDay (d : Day) : Spec.unitCost (ofDay d) = dayUnit d := by
   unfold Spec.unitCost dayUnit ofDay Day.B
   cases hb : d.buy with
   | none => simp
   | some b =>
-    simp only [unitCost, h0]
+    simp only [unitCost]
     by_cases hq : b.q = 0
     · simp [hq]
-    · simp [hq]; grind
+    · simp [hq]
 
 /-- a day without a SELL line -/
 theorem dayStep_nosell (t : String) (w : Int) (pool pool1 : Option Pool) (d : Day) (claimed : Rat) (rest : List Day)
     (cl cl1 : List Rat) (legs1 : List Leg) (tbl : List SDay) (mine : List Claim)
-    (hs : d.sells = []) (h0 : d.offset = 0) (hB : 0 ≤ d.B) (hc0 : 0 ≤ claimed) (hc1 : claimed ≤ d.B)
+    (hs : d.sells = []) (hB : 0 ≤ d.B) (hc0 : 0 ≤ claimed) (hc1 : claimed ≤ d.B)
     (hmine : mine = [])
     (h : dayStep t w pool d claimed rest cl = .ok (pool1, cl1, legs1)) :
     let out := dayOut tbl mine claimed (poolQ' pool) (poolC' pool) (ofDay d)
@@ -340,7 +340,7 @@ theorem dayStep_nosell (t : String) (w : Int) (pool pool1 : Option Pool) (d : Da
     have e1 : ¬ ((0 : Rat) - 0 - 0 > 0) := by grind
     simp only [e1, if_false]; grind
   · simp only [dayOut, hS0, hsd, List.map_nil, rsum_nil, ofDay_B]
-    rw [hcst, unitCost_ofDay d h0]
+    rw [hcst, unitCost_ofDay d]
     have e1 : ¬ ((0 : Rat) - 0 - 0 > 0) := by grind
     simp only [e1, if_false]
     cases hb : d.buy with
@@ -436,7 +436,7 @@ theorem sellsStep_single (t : String) (w : Int) (d : Day) (future : List Day) (s
     on are those of `Spec`'s row and walk step -/
 theorem dayStep_onesell (t : String) (w : Int) (pool pool1 : Option Pool) (d : Day) (claimed : Rat) (rest : List Day)
     (cl cl1 : List Rat) (legs1 : List Leg) (tbl : List SDay) (i : Nat) (cs : List Claim) (s : Trade)
-    (hs : d.sells = [s]) (h0 : d.offset = 0) (hok : d.ok)
+    (hs : d.sells = [s]) (hok : d.ok)
     (hc0 : 0 ≤ claimed) (hc1 : claimed + min d.B (max d.S 0) ≤ d.B)
     (hcl : claimsOk rest cl) (hpos : ratiosPos rest) (hSrest : ∀ e ∈ rest, 0 ≤ e.S)
     (halign : ∀ m, m < rest.length → cl.getD m 0 = claimedOn cs (i + 1 + m))
@@ -547,7 +547,7 @@ theorem dayStep_onesell (t : String) (w : Int) (pool pool1 : Option Pool) (d : D
           rw [hfp, hq, hsdS, ofDay_B, hr']
           grind
         · simp only [dayOut]
-          rw [hfp, hcst, hsdS, ofDay_B, unitCost_ofDay d h0]
+          rw [hfp, hcst, hsdS, ofDay_B, unitCost_ofDay d]
           cases hb : d.buy with
           | none =>
             have hB0 : d.B = 0 := by simp [Day.B, hb]
@@ -557,7 +557,7 @@ theorem dayStep_onesell (t : String) (w : Int) (pool pool1 : Option Pool) (d : D
             rw [this]; grind
           | some b => simp only; grind
         · simp only [dayOut]
-          rw [hfp, hSS, hsdS, unitCost_ofDay d h0, ← hlegs]
+          rw [hfp, hSS, hsdS, unitCost_ofDay d, ← hlegs]
           simp only [List.map_append, hsdv, hbv, hpv]
           by_cases hsp : s.q > 0
           · simp only [hsp, if_true, List.flatMap_cons, List.flatMap_nil, List.append_nil, List.map_append]
@@ -606,7 +606,7 @@ theorem rowOf_nosell (w : Int) (i : Nat) (cs : List Claim) (d : Day) (rest : Lis
     increasing dates, at most one SELL line per day and no cost offsets: same closing pool (quantity and
     cost), same legs (rule, quantity, allowable cost, acquisition date) in the same order -/
 theorem run_walk (t : String) (w : Int) (all : List Day) (hall : all.Pairwise (fun a b => a.ord < b.ord))
-    (hoff : ∀ d ∈ all, d.offset = 0) (hone : ∀ d ∈ all, d.sells.length ≤ 1) :
+    (hone : ∀ d ∈ all, d.sells.length ≤ 1) :
     ∀ (ds pre : List Day) (pool pool' : Option Pool) (cl : List Rat) (cs : List Claim) (legs : List Leg),
       all = pre ++ ds → daysOk ds → 0 ≤ poolQ' pool → claimsOk ds cl →
       (∀ m, m < ds.length → cl.getD m 0 = claimedOn cs (pre.length + m)) →
@@ -626,7 +626,6 @@ theorem run_walk (t : String) (w : Int) (all : List Day) (hall : all.Pairwise (f
   | cons d rest ih =>
     intro pre pool pool' cl cs legs hsplit hok hp hc halign hcs hrun
     have hdmem : d ∈ all := by rw [hsplit]; simp
-    have hd0 := hoff d hdmem
     have hd1 := hone d hdmem
     -- one day of the model
     simp only [runDays] at hrun
@@ -677,7 +676,7 @@ theorem run_walk (t : String) (w : Int) (all : List Day) (hall : all.Pairwise (f
           intro m e he
           rw [hsplit, dayAt_map pre d rest m e he]
           have hemem : e ∈ all := by rw [hsplit]; simp [List.mem_of_getElem? he]
-          exact ⟨rfl, by rw [unitCost_ofDay e (hoff e hemem)]; rfl⟩
+          exact ⟨rfl, by rw [unitCost_ofDay e]; rfl⟩
         -- Spec: the final claims seen from this day
         have hcsf : claims w pre.length cs ((d :: rest).map ofDay)
             = claims w (pre.length + 1) (cs ++ rowOf w pre.length cs (ofDay d) (rest.map ofDay)) (rest.map ofDay) := by
@@ -707,7 +706,7 @@ theorem run_walk (t : String) (w : Int) (all : List Day) (hall : all.Pairwise (f
           have hmn : 0 ≤ min d.B (max d.S 0) := by grind
           have hclB : cl.headD 0 ≤ d.B := by grind
           obtain ⟨o1, o2, o3, o4, o5⟩ := dayStep_nosell t w pool pool1 d (cl.headD 0) rest cl.tail cl1 legs1
-            (all.map ofDay) (rowOf w pre.length cs (ofDay d) (rest.map ofDay)) hsl hd0 hok.1.2.2 hc0 hclB hrow0 h1
+            (all.map ofDay) (rowOf w pre.length cs (ofDay d) (rest.map ofDay)) hsl hok.1.2.2 hc0 hclB hrow0 h1
           have halign' : ∀ m, m < rest.length → cl1.getD m 0 = claimedOn (cs ++ rowOf w pre.length cs (ofDay d) (rest.map ofDay)) (pre.length + 1 + m) := by
             intro m hm
             rw [o5, haligntail m hm, hrow0]; simp
@@ -724,7 +723,7 @@ theorem run_walk (t : String) (w : Int) (all : List Day) (hall : all.Pairwise (f
             | cons _ _ => simp at hd1
           subst hss
           obtain ⟨o2, o3, o4, o5⟩ := dayStep_onesell t w pool pool1 d (cl.headD 0) rest cl.tail cl1 legs1
-            (all.map ofDay) pre.length cs s hsl hd0 hok.1 hc0 hc1 hcrest (daysOk_ratiosPos rest hok.2) hSrest
+            (all.map ofDay) pre.length cs s hsl hok.1 hc0 hc1 hcrest (daysOk_ratiosPos rest hok.2) hSrest
             haligntail hat h1
           have halign' : ∀ m, m < rest.length → cl1.getD m 0 = claimedOn (cs ++ rowOf w pre.length cs (ofDay d) (rest.map ofDay)) (pre.length + 1 + m) := by
             intro m hm
@@ -745,12 +744,12 @@ theorem identify_eq (w : Int) (ticker : String) (l : List Tx) :
 
 /-- the whole main pass of one security against `Spec` on the same days -/
 theorem runDays_eq_spec (t : String) (w : Int) (ds : List Day) (hs : ds.Pairwise (fun a b => a.ord < b.ord))
-    (hok : daysOk ds) (hoff : ∀ d ∈ ds, d.offset = 0) (hone : ∀ d ∈ ds, d.sells.length ≤ 1)
+    (hok : daysOk ds) (hone : ∀ d ∈ ds, d.sells.length ≤ 1)
     (pool : Option Pool) (legs : List Leg) (h : runDays t w none ds [] = .ok (pool, legs)) :
     let sp := identifyTbl w (ds.map ofDay)
     sp.2.1 = poolQ' pool ∧ sp.2.2 = poolC' pool ∧
     legs.map legView = sp.1.flatMap (fun dsp => dsp.legs.map slegView) := by
-  have := run_walk t w ds hs hoff hone ds [] none pool [] [] legs (by simp) hok (by simp [poolQ']) (claimsOk_nil ds hok)
+  have := run_walk t w ds hs hone ds [] none pool [] [] legs (by simp) hok (by simp [poolQ']) (claimsOk_nil ds hok)
     (by intro m _; simp [claimedOn_nil]) (by intro c hc; simp at hc) h
   simpa [identifyTbl, poolQ', poolC'] using this
 
@@ -771,31 +770,55 @@ theorem withOffsets_noEvents (t : String) (ds : List Day) (hok : daysOk ds) (hne
     exact lookupKey_zeros _ _
   rw [this]
 
-theorem ofDay_offset (d : Day) (x : Rat) : ofDay { d with offset := x } = ofDay d := rfl
+theorem daysOk_setOffset (f : Day → Rat) : ∀ (ds : List Day), daysOk ds → daysOk (ds.map (fun d => { d with offset := f d })) := by
+  intro ds
+  induction ds with
+  | nil => intro _; trivial
+  | cons d ds ih => intro hok; exact ⟨hok.1, ih hok.2⟩
 
-/-- **one security, pre-pass included**: a day list without cost events, strictly increasing in date,
-    with at most one SELL line per day, is identified by the matcher exactly as `Spec` identifies it -/
+/-- **one security, pre-pass included, capital events allowed**: for a day list strictly increasing in
+    date with at most one SELL line per day, the matcher identifies exactly as `Spec` does on the same
+    days, each purchase's cost being its consideration and fees plus the offset the cost pre-pass wrote on
+    it (zero without capital returns / accumulations) -/
+theorem runTicker_eq_spec_offsets (t : String) (w : Int) (ds : List Day) (hs : ds.Pairwise (fun a b => a.ord < b.ord))
+    (hok : daysOk ds) (hone : ∀ d ∈ ds, d.sells.length ≤ 1)
+    (pool : Option Pool) (legs : List Leg) (h : runTicker t w ds = .ok (pool, legs)) :
+    ∃ lots, prepass t [] ds = .ok lots ∧
+      (let sp := identifyTbl w ((ds.map (fun d => { d with offset := offsetFor d.ord lots })).map ofDay)
+       sp.2.1 = poolQ' pool ∧ sp.2.2 = poolC' pool ∧
+       legs.map legView = sp.1.flatMap (fun dsp => dsp.legs.map slegView)) := by
+  unfold runTicker withOffsets at h
+  cases hp : prepass t [] ds with
+  | error e => rw [hp] at h; cases h
+  | ok lots =>
+    rw [hp] at h
+    simp only at h
+    refine ⟨lots, rfl, ?_⟩
+    have hs' : (ds.map (fun d => { d with offset := offsetFor d.ord lots })).Pairwise (fun a b => a.ord < b.ord) := by
+      rw [List.pairwise_map]; exact hs
+    exact runDays_eq_spec t w _ hs' (daysOk_setOffset _ ds hok)
+      (by intro d hd; simp only [List.mem_map] at hd; obtain ⟨d0, hd0, rfl⟩ := hd; exact hone d0 hd0) pool legs h
+
+/-- **… and without capital events** (days as `groupDays` builds them: no offset yet): exactly `Spec` on
+    the days themselves -/
 theorem runTicker_eq_spec (t : String) (w : Int) (ds : List Day) (hs : ds.Pairwise (fun a b => a.ord < b.ord))
-    (hok : daysOk ds) (hne : noEvents ds) (hone : ∀ d ∈ ds, d.sells.length ≤ 1)
+    (hok : daysOk ds) (hne : noEvents ds) (hone : ∀ d ∈ ds, d.sells.length ≤ 1) (h0 : ∀ d ∈ ds, d.offset = 0)
     (pool : Option Pool) (legs : List Leg) (h : runTicker t w ds = .ok (pool, legs)) :
     let sp := identifyTbl w (ds.map ofDay)
     sp.2.1 = poolQ' pool ∧ sp.2.2 = poolC' pool ∧
     legs.map legView = sp.1.flatMap (fun dsp => dsp.legs.map slegView) := by
-  unfold runTicker at h
-  rw [withOffsets_noEvents t ds hok hne] at h
-  simp only at h
-  have hmap : (ds.map (fun d => { d with offset := (0 : Rat) })).map ofDay = ds.map ofDay := by
-    rw [List.map_map]; rfl
-  have hs' : (ds.map (fun d => { d with offset := (0 : Rat) })).Pairwise (fun a b => a.ord < b.ord) := by
-    rw [List.pairwise_map]; exact hs
-  have hok' : daysOk (ds.map (fun d => { d with offset := (0 : Rat) })) := by
-    clear h hs hs' hmap hne hone
-    induction ds with
-    | nil => trivial
-    | cons d ds ih => exact ⟨hok.1, ih hok.2⟩
-  have := runDays_eq_spec t w _ hs' hok' (by intro d hd; simp only [List.mem_map] at hd; obtain ⟨_, _, rfl⟩ := hd; rfl)
-    (by intro d hd; simp only [List.mem_map] at hd; obtain ⟨d0, hd0, rfl⟩ := hd; exact hone d0 hd0) pool legs h
-  rw [hmap] at this
-  exact this
+  obtain ⟨lots, hp, hsp⟩ := runTicker_eq_spec_offsets t w ds hs hok hone pool legs h
+  have hw := withOffsets_noEvents t ds hok hne
+  unfold withOffsets at hw
+  rw [hp] at hw
+  simp only [Except.ok.injEq] at hw
+  have hself : ds.map (fun d => { d with offset := (0 : Rat) }) = ds := by
+    conv => rhs; rw [← List.map_id ds]
+    apply List.map_congr_left
+    intro d hd
+    have := h0 d hd
+    cases d; simp_all
+  rw [hw, hself] at hsp
+  exact hsp
 
 end Cgt
